@@ -269,12 +269,21 @@ def main(argv):
     # second chance for obligations of functions whose code is unchanged since the verified baseline: identical VCs,
     # so anything but 'proved' is solver flakiness (load, time-outs): retry alone with a generous budget
     retry = {}
+    changed_fns = set()
     for rep in reports:
         if rep["status"] == "ok" and unchanged_since_baseline(rep):
             names = [o.get("uid", o["name"]) for o in rep["obligations"] if o["result"] != "proved"
                      and match_known(load_known(), pid, {"obligation": o["name"]}) is None]
             if names:
                 retry[rep["function"]] = set(names)
+        elif rep["status"] == "ok":
+            # changed code: obligations the quick budget left open get the large budget too, so that they end as proved or
+            # refuted rather than undecided (a refutation still has to be replayed on the real code afterwards)
+            names = [o.get("uid", o["name"]) for o in rep["obligations"] if o["result"] not in ("proved", "refuted")
+                     and match_known(load_known(), pid, {"obligation": o["name"]}) is None]
+            if names and len(names) <= 12:
+                retry[rep["function"]] = set(names)
+                changed_fns.add(rep["function"])
     if retry:
         os.environ["PYVC_QUICK_MS"] = "60000"
         os.environ["PYVC_OB_BUDGET_S"] = "400"
@@ -282,7 +291,8 @@ def main(argv):
         with ctx.Pool(min(8, len(retry)), maxtasksperchild=1) as pool:
             again = pool.map(_retry_worker, [(q, pid, sorted(ns)) for q, ns in retry.items()], chunksize=1)
         for rep2 in again:
-            better = {o["uid"]: o for o in rep2.get("obligations", []) if o["result"] == "proved" and o.get("uid")}
+            better = {o["uid"]: o for o in rep2.get("obligations", []) if o.get("uid") and (
+                o["result"] == "proved" or (o["result"] == "refuted" and rep2["function"] in changed_fns))}
             for rep in reports:
                 if rep["function"] == rep2["function"]:
                     rep["obligations"] = [better.get(o.get("uid"), o) if o["result"] != "proved" else o for o in rep["obligations"]]
